@@ -281,6 +281,10 @@ def run_map(case, ctx):
                 pass
             r = guard(ctx, "SortedMap/get-foreign", lambda: m.get(f, "D"))
             ctx.need(r == "D", "SortedMap/get-foreign/wrong", "get(foreign) returned %r" % (r,))
+            r = guard(ctx, "SortedMap/pop-foreign-with-default", lambda: m.pop(f, "D"))
+            ctx.need(r == "D", "SortedMap/pop-foreign-with-default/wrong", "pop(foreign, default) returned %r, dict returns the default" % (r,))
+            r = guard(ctx, "SortedMap/setdefault-contains-foreign", lambda: f in m.keys())
+            ctx.need(r is False, "SortedMap/keys-contains-foreign/wrong", "foreign in m.keys() = %r" % (r,))
             ctx.label("foreign-probe")
             if ref:
                 ctx.nontrivial = True
